@@ -491,6 +491,25 @@ structure VipOtpExt where
   vipValidate : Str → Nat → Bool × Option Err
   upgradeResult : Str → Nat → Str × Option Err
 
+/-! ### cmd/keymasterd Okta second factor: `oktaPollCheckHandler`, `Okta2FAuthHandler` -/
+
+/-- effects: a status written, a question to Okta (push state of a user / a code of a user), the cookie raised, success -/
+inductive OktaEffect
+  | status (code : Nat)
+  | askedPush (user : Str)
+  | askedOtp (user : Str) (otp : Nat)
+  | upgrade (user : Str) (level : Nat)
+  | success
+deriving DecidableEq, Repr
+
+/-- externals: `checkAuth` (translated separately), Okta's answers (push state: 1 approved, 2 waiting, 3 rejected, other),
+the result of the cookie upgrade -/
+structure OktaExt where
+  checkAuth : Nat → authInfo × Option Err
+  push : Str → Nat × Option Err
+  otp : Str → Nat → Bool × Option Err
+  upgradeResult : Str → Nat → Str × Option Err
+
 /-! ### cmd/keymasterd `consumeLoginChallenge` -/
 
 /-- `localUserData`: the pending challenge of a user; the two challenge pointers are compared by identity (numbers
